@@ -137,12 +137,35 @@ Theorem C10_processing_order_is_stable_sort : forall (irows : list (nat * row)),
 Proof. exact processing_order_is_stable_sort. Qed.
 Print Assumptions C10_processing_order_is_stable_sort.
 
-(* A Delay group takes effect at onset + delay and keeps the row it came from. *)
+(* A Delay group whose value converts to seconds takes effect at onset + delay and keeps
+   the row it came from -- in ANY row, whatever other groups it holds (mixed rows). *)
 Theorem C10_delayed_entry_time : forall (i : nat) (r : row) (e : entry),
   In e (delayed_entries (i, r)) <->
-  exists d g, In (Some d, g) (r_groups r) /\ e = mkEntry (r_onset r + d)%N i [g].
+  exists d g, In (Delay (Some d), g) (r_groups r) /\ e = mkEntry (r_onset r + d)%N i [g].
 Proof. exact delayed_entry_time. Qed.
 Print Assumptions C10_delayed_entry_time.
+
+(* Every other group -- no Delay tag, or a Delay whose unit has no conversion to seconds
+   (Delay/1 year, Delay/1 month) -- stays in its row, in order: it takes effect at the
+   row's own onset and does not stop later Delay groups of the row from shifting. *)
+Theorem C10_remaining_groups : forall r : row,
+  remaining_groups r = map snd (filter (fun g => negb (shifts g)) (r_groups r)).
+Proof. exact remaining_groups_spec. Qed.
+Print Assumptions C10_remaining_groups.
+
+(* A row is left out of the bookkeeping (when it starts a time point) exactly when the
+   issues of its last non-empty HED cell contain an ERROR ... *)
+Theorem C10_row_failed_iff : forall r : row,
+  row_failed r = true <-> In SevError (last (r_cells r) []).
+Proof. exact row_failed_iff. Qed.
+Print Assumptions C10_row_failed_iff.
+
+(* ... so a legal row that only draws warnings (TAG_EXTENDED, STYLE_WARNING, UNITS_MISSING)
+   is an ordinary row of the history: C10_effective_time processes its markers. *)
+Theorem C10_warnings_only_row_takes_part : forall r : row,
+  (forall c, In c (r_cells r) -> forall x, In x c -> x = SevWarning) -> row_failed r = false.
+Proof. exact warnings_only_row_takes_part. Qed.
+Print Assumptions C10_warnings_only_row_takes_part.
 
 (* The onset part of file validation never raises, for ALL files (sorted or not,
    any Delay groups, failed rows): every index stored by _indexed_dict_from_onsets
@@ -168,7 +191,8 @@ Print Assumptions C10_files_independent.
    time point per effective time that occurs, in increasing time order, holding every
    group with that effective time (rows in file order, then Delay groups in file
    order), reported at the row of its first line, skipping time points that start with
-   a failed row; the platform's tie orders perm1/perm2 are not consulted any more. *)
+   a failed row (C10_row_failed_iff: an ERROR in its last HED cell; warnings do not count);
+   the platform's tie orders perm1/perm2 are not consulted any more. *)
 Theorem C10_effective_time : forall (rows : list row) perm1 perm2,
   needs_sorting rows = false -> process_file true perm1 perm2 rows = Ok (spec_file rows).
 Proof. exact effective_time. Qed.
@@ -193,7 +217,7 @@ Proof. exact ex_rows_run. Qed.
 (* the reset is not vacuous: from a validator still holding scope "a", an unmatched
    Offset of a would go unreported *)
 Example C10_nonvacuous_reset :
-  let rows := [mkRow 1 false [(None, Some (mkMarker Offset [[97%N]]))]] in
+  let rows := [mkRow 1 [] [(NoDelay, Some (mkMarker Offset [[97%N]]))]] in
   process_file true None None rows = Ok ([], [(0, [mkIssue OffsetBeforeOnset 0 [97%N]])]) /\
   process_file_from true None None [[97%N]] rows = Ok ([], [(0, [])]).
 Proof. exact carried_scope_would_hide. Qed.
